@@ -112,3 +112,38 @@ Proof.
   - apply N.eqb_eq in Es. subst ts. rewrite cq_refines by assumption. reflexivity.
   - rewrite cq_refines_at by assumption. reflexivity.
 Qed.
+
+(* ---- adaptive clients ----
+   A client that chooses every next operation from the answers it has seen so
+   far (the runtime's dispatch loop is such a client: it only calls add,
+   fetch_next, peek_time and len) cannot distinguish the calendar queue from the
+   specification, whatever n and t are. *)
+Fixpoint interact (fuel : nat) (c : list out -> option op) (s : st) (hist : list out) : list out :=
+  match fuel with
+  | O => hist
+  | S f => match c hist with
+           | None => hist
+           | Some o => let '(s', x) := step true s o in interact f c s' (hist ++ [x])
+           end
+  end.
+
+Fixpoint sp_interact (fuel : nat) (c : list out -> option op) (a : sst) (hist : list out) : list out :=
+  match fuel with
+  | O => hist
+  | S f => match c hist with
+           | None => hist
+           | Some o => let '(a', x) := sp_step a o in sp_interact f c a' (hist ++ [x])
+           end
+  end.
+
+Lemma interact_sim fuel c : forall s a hist, Rst s a -> interact fuel c s hist = sp_interact fuel c a hist.
+Proof.
+  induction fuel as [|f IH]; intros s a hist HR; cbn [interact sp_interact]; [reflexivity|].
+  destruct (c hist) as [o|]; [|reflexivity].
+  pose proof (step_sim s a o HR) as H. destruct (step true s o) as [s' x]. destruct (sp_step a o) as [a' x'].
+  destruct H as [-> HR']. apply IH. exact HR'.
+Qed.
+
+Theorem cq_indistinguishable n t ts fuel c : n <> 0 -> t <> 0 ->
+  interact fuel c (init_at n t ts) [] = sp_interact fuel c (sp_init_at ts) [].
+Proof. intros Hn Ht. apply interact_sim. apply Rst_init_at; assumption. Qed.
